@@ -311,7 +311,7 @@ fn aim_roll(seed: u64, policy: &str) -> Script {
 /// Batches whose record boundaries coincide with frame boundaries.
 fn aim_batch(seed: u64, policy: &str) -> Script {
     let mut rng = Rng(seed ^ 0xC3);
-    let queues = names(&mut rng, 2);
+    let queues = names(&mut rng, 3);
     let mut live = Live::new(format!("aim-batch-{seed}"), policy, queues, seed);
     live.push(Step::Create { q: 0 });
     live.push(Step::Create { q: 1 });
@@ -354,7 +354,10 @@ fn aim_batch(seed: u64, policy: &str) -> Script {
             }
             continue;
         }
-        let middles = 1 + live.rng.below(4);
+        // mostly a few frames; sometimes enough whole frames to cover a WAL file or two in the middle
+        // of the batch (files that hold nothing but continuation frames)
+        let long = live.rng.chance(30);
+        let middles = if long { 8 + live.rng.below(6) } else { 1 + live.rng.below(4) };
         for _ in 0..middles {
             match live.rng.below(4) {
                 0 | 1 => batch.push(live.payload(BLOCK - HDR - 12)),
@@ -370,6 +373,12 @@ fn aim_batch(seed: u64, policy: &str) -> Script {
         let len = live.rng.below(200) as usize;
         batch.push(live.payload(len));
         live.push(Step::Append { q: 0, pos: None, batch });
+        if long {
+            // a GC pass run by a call on another queue while the long batch is retained, then a restart
+            live.push(Step::Create { q: 2 });
+            live.push(Step::Delete { q: 2 });
+            live.push(Step::Restart);
+        }
         if live.rng.chance(30) {
             let last = live.last_position(0).unwrap_or(0);
             live.push(Step::Truncate { q: 0, p: last.saturating_sub(2) });
@@ -677,7 +686,11 @@ fn aim_seam(seed: u64, policy: &str) -> Script {
 fn aim_span(seed: u64, policy: &str) -> Script {
     let mut rng = Rng(seed ^ 0x5A);
     let nq = 1 + rng.below(3) as usize;
-    let queues = names(&mut rng, nq);
+    // one more queue that only ever gets created and deleted (a delete_queue runs a GC pass while
+    // the spanning entry is retained)
+    let queues = names(&mut rng, nq + 1);
+    let victim = nq;
+    let mut victim_exists = false;
     let mut live = Live::new(format!("aim-span-{seed}"), policy, queues, seed);
     for q in 0..nq {
         live.push(Step::Create { q });
@@ -723,11 +736,28 @@ fn aim_span(seed: u64, policy: &str) -> Script {
         };
         live.push(Step::Append { q, pos: None, batch });
         if live.rng.chance(50) {
+            // a GC pass triggered by another queue while the spanning entry is retained
+            if victim_exists {
+                live.push(Step::Delete { q: victim });
+            } else {
+                live.push(Step::Create { q: victim });
+                live.push(Step::Delete { q: victim });
+            }
+            victim_exists = false;
+            if live.rng.chance(60) {
+                live.push(Step::Restart);
+            }
+        } else if live.rng.chance(30) {
+            live.push(Step::Create { q: victim });
+            victim_exists = true;
+        }
+        if live.rng.chance(50) {
             if let Some(last) = live.last_position(q) {
                 live.push(Step::Truncate { q, p: last });
             }
         }
     }
+    let _ = victim_exists;
     live.push(Step::Restart);
     for q in 0..nq {
         let payload = live.payload(5);
